@@ -1,7 +1,7 @@
 import Proofs.Syncer
 import Proofs.NetSteps2
-import Proofs.SysMirror
-import Props.C02
+import Proofs.SysQuiet
+import Props.C03
 /-!
 # C04 — The routing table mirrors what each node advertises
 
@@ -420,5 +420,67 @@ theorem C04_mirror_system (ops : List SysOp) (hall : SysAllowed ops) (r a : Stri
     · rw [hes e, hcnt e]
     · rw [hst]
       simp only [NView.status, hleft', Bool.false_eq_true, if_false, ← hvs'.2.1, hnvu]
+
+open Piko.Gossip in
+/-- **After a settle schedule every node is caught up with every other node** (`C03_converges_all`
+about the system): `sched` consists of receive-side steps only (`SysOp.quiet`) and contains the full
+exchange `join r a` for every ordered pair of nodes that existed when it started. -/
+theorem C04_caught_up_after_settle (ops sched : List SysOp) (hall : SysAllowed (sched ++ ops))
+    (hq : ∀ op ∈ sched, op.quiet.isSome = true)
+    (hjoins : ∀ r a, r ≠ a → ((Sys.runRev ops).node r).isSome = true → ((Sys.runRev ops).node a).isSome = true →
+      ∃ now, SysOp.join r a true now ∈ sched)
+    (r a : String) (hne : r ≠ a) (xr xa : SysNode)
+    (hr : (Sys.runRev (sched ++ ops)).node r = some xr) (ha : (Sys.runRev (sched ++ ops)).node a = some xa) :
+    ∃ V, xr.mgr.gossip.nodes.find a = some V ∧ V.version = (own xa.mgr.gossip).version := by
+  obtain ⟨sdr1, gr1, hsr1, hgr1, rfl⟩ := Sys.node_eq hr
+  obtain ⟨sda1, ga1, hsa1, hga1, rfl⟩ := Sys.node_eq ha
+  have hall0 := sysAllowed_append sched ops hall
+  have hinv0 := sysInv_runRev ops hall0
+  -- both nodes existed when the schedule started
+  have hdom := Sys.side_dom_quiet sched ops hq
+  have hnode0 : ∀ k sd1, (Sys.runRev (sched ++ ops)).side.find k = some sd1 →
+      ∃ sd0 g0, (Sys.runRev ops).side.find k = some sd0 ∧ (Sys.runRev ops).net.nodes.find k = some g0 := by
+    intro k sd1 hk
+    have := hdom k
+    rw [hk] at this
+    cases hs0 : (Sys.runRev ops).side.find k with
+    | none => rw [hs0] at this; cases this
+    | some sd0 =>
+      obtain ⟨g0, hg0⟩ := hinv0.net_of_side hs0
+      exact ⟨sd0, g0, rfl, hg0⟩
+  obtain ⟨sdr0, gr0, hsr0, hgr0⟩ := hnode0 r sdr1 hsr1
+  obtain ⟨sda0, ga0, hsa0, hga0⟩ := hnode0 a sda1 hsa1
+  -- the gossip histories
+  have hN := Sys.netHist_append_quiet sched ops hq
+  have hallN : AllowedRev (sched.filterMap SysOp.quiet ++ Sys.netHist ops) := by
+    rw [← hN]; exact allowedRev_netHist _ hall
+  have hqN : ∀ op ∈ sched.filterMap SysOp.quiet, Quiet op := by
+    intro g hg
+    obtain ⟨op, _, hop⟩ := List.mem_filterMap.mp hg
+    exact Sys.quiet_isQuiet hop
+  have hnodeSome : ∀ k g, (runRev (Sys.netHist ops)).net.nodes.find k = some g → ((Sys.runRev ops).node k).isSome = true := by
+    intro k g hk
+    rw [← Sys.runRev_net] at hk
+    obtain ⟨sd, hsd⟩ := hinv0.side_of_net hk
+    simp [Sys.node, hsd, hk]
+  have hschedN : ∀ r a sr sa, r ≠ a → (runRev (Sys.netHist ops)).net.nodes.find r = some sr →
+      (runRev (Sys.netHist ops)).net.nodes.find a = some sa → (own sa).entries ≠ [] →
+      ∃ now, Op.join r a true now ∈ sched.filterMap SysOp.quiet := by
+    intro r a sr sa hne hr ha _
+    obtain ⟨now, hj⟩ := hjoins r a hne (hnodeSome r sr hr) (hnodeSome a sa ha)
+    exact ⟨now, List.mem_filterMap.mpr ⟨_, hj, rfl⟩⟩
+  -- the owner publishes at least its proxy address
+  have hent : (own ga0).entries ≠ [] := by
+    have hp := (hinv0.node a sda0 ga0 hsa0 hga0).paddr
+    intro h0
+    simp [liveValue, h0] at hp
+  obtain ⟨sr', sa', V, h1, h2, h3, h4, h5, _⟩ :=
+    C03_converges_all hallN hqN hschedN r a gr0 ga0 hne
+      (by rw [← Sys.runRev_net]; exact hgr0) (by rw [← Sys.runRev_net]; exact hga0) hent
+  rw [← hN, ← Sys.runRev_net] at h1 h2
+  rw [hgr1] at h1; cases h1
+  rw [hga1] at h2; cases h2
+  exact ⟨V, h4, by rw [h5, h3]⟩
+
 
 end Piko
